@@ -275,6 +275,9 @@ func (w *World) verifyFuncOnce(fi *FuncInfo, props []string, prefix []int, pathM
 		for _, u := range fi.Spec.Uses {
 			fx.assumeLemma(st, fx.specEnv(st, st, fi.Body.Lbrace), u)
 		}
+		for _, ci := range fi.Spec.ClosureInv {
+			st.assume(fx.specBool(fx.specEnv(st, st, fi.Body.Lbrace), ci.Expr))
+		}
 	}
 	fx.entry = st.clone()
 	// vacuity: the precondition must be satisfiable
@@ -388,6 +391,11 @@ func (w *World) verifyFuncOnce(fi *FuncInfo, props []string, prefix []int, pathM
 			}
 		}
 		if fi.Spec != nil {
+			for k, ci := range fi.Spec.ClosureInv {
+				// evaluated over the captured variables as they are now (no old(): it is a state invariant)
+				env := fx.specEnv(exit, exit, fi.Body.Lbrace)
+				c.oblige(exit, "closure-inv", clauseAnchor("kept", ci, k)+sfx, fx.specBool(env, ci.Expr), ci.Text, w.pos(fi.Body.Rbrace))
+			}
 			for _, lu := range fi.Spec.UsesAt {
 				env := fx.specEnv(exit, fx.entry, fi.Body.Lbrace)
 				env.bound = fx.resultBindings(exit, rc)
